@@ -24,13 +24,21 @@ pub fn discovered_names() -> Vec<String> {
     let pat = b"GREX_";
     let mut i = 0;
     while i + pat.len() < bytes.len() {
-        if &bytes[i..i + pat.len()] == pat && (i == 0 || !(bytes[i - 1].is_ascii_alphanumeric() || bytes[i - 1] == b'_')) {
+        // string literals lie back to back in the binary: no word boundary can be required on either side
+        if &bytes[i..i + pat.len()] == pat {
             let mut j = i + pat.len();
             while j < bytes.len() && (bytes[j].is_ascii_uppercase() || bytes[j].is_ascii_digit() || bytes[j] == b'_') {
                 j += 1;
             }
             if j > i + pat.len() && j - i <= 48 {
                 let name = String::from_utf8_lossy(&bytes[i..j]).to_string();
+                // the next literal may start with a capital letter that got glued on: also try without it
+                if name.len() > 8 {
+                    let shorter = name[..name.len() - 1].trim_end_matches('_').to_string();
+                    if !out.contains(&shorter) {
+                        out.push(shorter);
+                    }
+                }
                 if !out.contains(&name) && !name.starts_with("GREX_SIM") {
                     out.push(name);
                 }
